@@ -48,8 +48,8 @@ CLAIMS = {
    note="PARTIAL: no picture-level theorem `decode = motion-compensated prediction + residual` yet. Axioms: propext, Classical.choice, Quot.sound.",
    design="DESIGN.md §4 C03", technique="Lean 4 proof (sample/vector rules) + bit-exact P-picture correspondence"),
  "C04": dict(
-   text="Lean 4 refinement theorems: with abs(state) = (get_last_picture, get_reference_picture), accepting a picture acts on abs exactly by the rule `last := new; reference := new unless disposable` for every temporal reference (incl. one equal to the reference's: disposable pictures are filed under tr|0x8000), a clean-up changes neither, a rejected picture changes nothing; every successful decode step is such an acceptance of the picture reconstructed from the current abstraction. Model tied to the code by correspondence on histories with colliding temporal references; the abstract rule is also replayed on the implementation's own output.",
-   note="Assumes temporal references below 0x8000 (parsed values have at most 10 bits; not yet a theorem about the header parser). Axioms: propext, Classical.choice, Quot.sound.",
+   text="Lean 4 refinement theorems: with abs(state) = (get_last_picture, get_reference_picture), accepting a picture acts on abs exactly by the rule `last := new; reference := new unless disposable` for every temporal reference (incl. one equal to the reference's: disposable pictures are filed under tr|0x8000), a clean-up changes neither, a rejected picture changes nothing; every successful decode step is such an acceptance of the picture reconstructed from the current abstraction (no side condition: the header parser is proved to yield temporal references below 1024); hence after EVERY history of deliveries, accepted and rejected decode calls and clean-ups the two reported pictures are the fold of the rule over the accepted pictures (history_refines), i.e. reference = most recent accepted non-disposable picture, last = most recent accepted picture (spec_run_ref). Model tied to the code by correspondence on histories with colliding temporal references; the abstract rule is also replayed on the implementation's own output.",
+   note="Complete at model level. Axioms: propext, Classical.choice, Quot.sound.",
    design="DESIGN.md §4 C04", technique="Lean 4 refinement proof to a two-variable spec machine + history correspondence"),
  "C05": dict(
    text="Lean 4 theorems over the system model: a failed decode step returns the instance unchanged; later steps give the same results as if it had never been made; a retry after appending data is the call on the completed data; a decode call depends on the decoder only through options, last and reference picture; carried-over options are never changed. That the code behaves like this model (mutations after the last fallible step, reader rollback, retained bytes) is established by correspondence: failing pictures at every depth inside histories, every byte split of a picture across two deliveries, with atomicity also checked on the implementation's own output.",
